@@ -173,6 +173,17 @@ class SymByteSeq:
     def ljust(self, n, fill=b"\0"):
         return SymByteSeq(self.bs + [fill[0]] * max(0, n - len(self.bs)))
 
+    def __getitem__(self, i):
+        if isinstance(i, slice):
+            return SymByteSeq(self.bs[i])
+        return self.bs[i]
+
+    def __iter__(self):
+        return iter(self.bs)
+
+    def __add__(self, o):
+        return SymByteSeq(self.bs + (o.bs if isinstance(o, SymByteSeq) else list(o)))
+
 
 class ByteFile:
     content = []
@@ -236,9 +247,13 @@ def bind_modular_shims(sym):
         fsmod.__dict__.pop("open", None)
 
 
+MOD_CHUNKS = [4096, 1, 2, 3, 4, 5, 7]
+
+
 def h_modular(ctx, n, k):
-    """real modular checksum of a file of n symbolic bytes, prefix k"""
+    """real modular checksum of a file of n symbolic bytes, prefix k, for several chunk lengths"""
     w = World(ctx)
+    seglen = ctx.pick("chunk", MOD_CHUNKS)
     bind_modular_shims(w.sym)
     bs = [ctx.int(f"b{i}", 0, 255) for i in range(n)]
     fs = NativeFilestore()
@@ -254,9 +269,10 @@ def h_modular(ctx, n, k):
     want = want % 2**32
     if w.sym:
         ByteFile.content = bs
-        out = fs.calculate_checksum(ChecksumType.MODULAR, ExistingPath("/x/file.bin"), k)
+        out = fs.calculate_checksum(ChecksumType.MODULAR, ExistingPath("/x/file.bin"), k, seglen)
         sig = {"sig": "modular checksum is not the word sum of the prefix"
-                      + (" (prefix shorter than the file)" if k < n else "")}
+                      + (" (prefix shorter than the file)" if k < n else "")
+                      + (" (depends on the chunk length)" if seglen != 4096 else "")}
         if isinstance(out, SymChecksum):
             ctx.prop("modular_checksum_of_prefix", SymBool(out.e == _z(want)), lambda: sig)
         else:
@@ -267,11 +283,13 @@ def h_modular(ctx, n, k):
     try:
         p = Path(d) / "f.bin"
         p.write_bytes(bytes(bs))
-        out = fs.calculate_checksum(ChecksumType.MODULAR, p, k)
+        out = fs.calculate_checksum(ChecksumType.MODULAR, p, k, seglen)
         ctx.prop("modular_checksum_of_prefix", out == int(want).to_bytes(4, "big") and out == modular_ref(bytes(bs[:k])),
-                 lambda: {"sig": "modular checksum is not the word sum of the prefix" + (" (prefix shorter than the file)" if k < n else "")})
-        ctx.prop("verify_true_iff_equal", fs.verify_checksum(out, ChecksumType.MODULAR, p, k) is True
-                 and fs.verify_checksum(bytes([out[0] ^ 1]) + out[1:], ChecksumType.MODULAR, p, k) is False)
+                 lambda: {"sig": "modular checksum is not the word sum of the prefix"
+                          + (" (prefix shorter than the file)" if k < n else "")
+                          + (" (depends on the chunk length)" if seglen != 4096 else "")})
+        ctx.prop("verify_true_iff_equal", fs.verify_checksum(out, ChecksumType.MODULAR, p, k, seglen) is True
+                 and fs.verify_checksum(bytes([out[0] ^ 1]) + out[1:], ChecksumType.MODULAR, p, k, seglen) is False)
     finally:
         shutil.rmtree(d, ignore_errors=True)
 
@@ -411,7 +429,7 @@ def plan(tier):
 
 
 BOUNDS = {
-    "quick": "chunk loop of the real NativeFilestore.calculate_checksum: file length, size_to_verify <= file length and segment_len symbolic in [0,4096] with at most M=4 chunks, CRC-32 and CRC-32C; modular checksum: every file length 0..6 x every prefix length, all bytes symbolic; CRC one-step lemmas over an arbitrary 32-bit register and byte (unbounded message length by induction); crcmod validated on 90 vectors of length 0..64",
+    "quick": "chunk loop of the real NativeFilestore.calculate_checksum: file length, size_to_verify <= file length and segment_len symbolic in [0,4096] with at most M=4 chunks, CRC-32 and CRC-32C; modular checksum: every file length 0..6 x every prefix length x chunk length in {4096,1,2,3,4,5,7}, all bytes symbolic; CRC one-step lemmas over an arbitrary 32-bit register and byte (unbounded message length by induction); crcmod validated on 90 vectors of length 0..64",
     "thorough": "M=8 chunks, modular files up to 9 bytes",
 }
 OUTSIDE = "crcmod's tables beyond the validated vectors (C extension, not reachable by the solver); modular checksum of files longer than 9 bytes; size_to_verify larger than the file"
